@@ -594,6 +594,16 @@ impl Datamodel for RFsmExpressionDatamodel {
         match data {
             Ok(r) => {
                 let dc = r.lock().unwrap().clone();
+                if matches!(dc, Data::Map(_) | Data::Array(_)) {
+                    // W3C: 'item' and 'index' must be legal, writable locations. Otherwise
+                    // error.execution is raised (by assign_internal) and the block ends.
+                    if !self.assign_internal(&str_to_source(item_name), &Data::Null(), true) {
+                        return false;
+                    }
+                    if !index.is_empty() && !self.assign_internal(&str_to_source(index), &Data::Integer(0), true) {
+                        return false;
+                    }
+                }
                 match dc {
                     Data::Map(map) => {
                         let mut idx: i64 = 0;
